@@ -247,6 +247,19 @@ func (c *Conn) Close() error {
 	}
 	c.closed = true
 
+	// However the close handshake below ends, the stream is over for the local
+	// side: blocked reads are released (as documented above) and data that
+	// still arrives is refused like data for any unknown session instead of
+	// being appended to a buffer that nobody reads (or announced on the channel
+	// that is closed here).
+	defer func() {
+		c.handler.rmStream(c.stanzaWriter.sid)
+		c.readLock.Lock()
+		c.recvClosed = true
+		close(c.readReady)
+		c.readLock.Unlock()
+	}()
+
 	// Flush any remaining data to be written.
 	err := c.Flush()
 	if err != nil {
@@ -271,14 +284,7 @@ func (c *Conn) Close() error {
 		return err
 	}
 	// The peer has acknowledged the close after sending whatever it still had
-	// for us. Data that arrives from now on is refused like data for any
-	// unknown session instead of being appended to a buffer that nobody reads
-	// (or sent on the channel that is closed below).
-	c.handler.rmStream(c.stanzaWriter.sid)
-	c.readLock.Lock()
-	c.recvClosed = true
-	close(c.readReady)
-	c.readLock.Unlock()
+	// for us.
 	return respReadCloser.Close()
 }
 
